@@ -78,11 +78,12 @@ def match_known(known, pid, kind, function, label, key=None):
         if kind == "obligation":
             if m.get("function") == function and m.get("obligation") == label:
                 return k
-        elif kind == "bounded":
-            if key is not None and fnmatch.fnmatchcase(key, m.get("key", "")):
+        elif kind in ("bounded", "ground"):
+            if key is None:
+                continue
+            if "key" in m and key == m["key"]:
                 return k
-        elif kind == "ground":
-            if key is not None and fnmatch.fnmatchcase(key, m.get("key", "")):
+            if "key_re" in m and re.fullmatch(m["key_re"], key):
                 return k
     return None
 
@@ -124,6 +125,7 @@ def main():
     proof_reports = R.run_pool(R.run_proof_job, [(repo, spec) for spec in plan.proofs])
     lemma_reports = R.run_pool(R.run_lemma_job, list(plan.lemmas))
     n_obl = n_dis = 0
+    n_known_obl = 0
     functions = []
     solver_time = 0.0
     backends = {}
@@ -182,6 +184,7 @@ def main():
                                         "sys.exit(0)\n")
             if k is not None:
                 known_lines.append("KNOWN-FINDING: property=%s %s [%s]" % (pid, k["what"], k["id"]))
+                n_known_obl += len(fs)
                 continue
             violations.append((name, path, "" if ok else " no-failing-input-found"))
     for lr in lemma_reports:
@@ -225,6 +228,7 @@ def main():
             k = match_known(known, pid, "ground", None, None, key=f["key"])
             if k:
                 known_lines.append("KNOWN-FINDING: property=%s %s [%s]" % (pid, k["what"], k["id"]))
+                n_known_obl += 1
                 continue
             path = write_replay(pid, "ground_" + f["key"], f.get("replay") or (
                 "# ground obligation failed: %s\n# %s\nimport sys\nsys.exit(0)\n" % (
@@ -281,7 +285,8 @@ def main():
         samples.append({"function": rep.get("function"), "paths": rep.get("paths"),
                         "obligations": rep.get("obligations"), "discharged": rep.get("discharged")})
     coverage = {
-        "obligations": n_obl, "discharged": n_dis,
+        "obligations": n_obl - n_known_obl, "discharged": n_dis,
+        "obligations_failing_by_listed_known_finding": n_known_obl,
         "checker_cmd": "python3-vt /verif/vcheck.py %s --tier %s  (pyvc: ast -> VCs -> z3 %s, "
                        "cvc5 fallback)" % (pid, tier, "5.1"),
         "trusted_base": sorted(trusted),
